@@ -35,6 +35,11 @@ def sh(cmd, cwd=None, env=None, timeout=1800):
 
 
 def main():
+    recheck = False
+    if sys.argv[1] == '--recheck':
+        # keep the recorded confirmation (demo + suite), re-run the checks
+        sys.argv[1] = '--reseed'
+        recheck = True
     if sys.argv[1] == '--reseed':
         # re-confirm and re-check an already filed seed
         seed_id = sys.argv[2]
@@ -42,6 +47,7 @@ def main():
         d = os.path.join('/verif/seeded', seed_id)
         patch, demo = os.path.join(d, 'patch.diff'), os.path.join(d, 'demo.py')
         meta = json.load(open(os.path.join(d, 'meta.json')))
+        kept = meta.get('confirmed') if recheck else None
         meta = {k: v for k, v in meta.items()
                 if k not in ('confirmed', 'checks', 'what_was_run')}
     else:
@@ -64,11 +70,17 @@ def main():
                                     'the current tree: ' + outa[-300:])
             print(json.dumps(res['confirmed']))
             return 2
-        rc1, out1 = sh('timeout -s KILL 170 /venv/bin/python %s' % demo,
-                       cwd=repo, env=env)
-        rct, outt = sh('timeout -s KILL 900 /venv/bin/python -m pytest -q '
-                       '-p no:cacheprovider --timeout=300 t/unit', cwd=repo,
-                       env=env)
+        if recheck and kept and kept.get('ok'):
+            # confirmed earlier (demo fails with the patch, suite passes):
+            # only the checks are run again
+            rc1, out1 = kept['demo_on_mutant'], kept.get('demo_tail_mutant', '')
+            rct, outt = 0, kept.get('suite', '')
+        else:
+            rc1, out1 = sh('timeout -s KILL 170 /venv/bin/python %s' % demo,
+                           cwd=repo, env=env)
+            rct, outt = sh('timeout -s KILL 900 /venv/bin/python -m pytest '
+                           '-q -p no:cacheprovider --timeout=300 t/unit',
+                           cwd=repo, env=env)
         failed = re.findall(r'^FAILED (\S+)', outt, re.M)
         bad = [f for f in failed if not any(t in f for t in TOLERATED)]
         summary = [l for l in outt.splitlines() if ' passed' in l or
